@@ -4,7 +4,7 @@ props = {
  "7393236":"C07","83ae23e":"C07","14cbeaa":"C07","be68ec1":"C07","115b0c3":"C19","729f917":"C19","4ab72dc":"C14",
  "d6f4207":"C14","06da0a6":"C14","c786cc1":"C13","4d8ac06":"C13","230b2a8":"C13","73282b0":"C07","5465796":"C07",
  "e2c7aa5":"C13","bb03683":"C13","1b52e0e":"C05","6271d5e":"C16","9a681b5":"C11","e73e5b6":"C11","42982ea":"C20",
- "97414d8":"C15","2a9acf8":"C15","e81255c":"C04","c0518c0":"C04","49e66f3":"C19","56e573d":"C15","a764275":"C16","0272831":"C16","261077d":"C13","4f1d12c":"C16","9cda97f":"C19","01bce4f":"C19","0948b37":"C06","d50f038":"C14","4ed0329":"C14","d9ec33f":"C14","4e50aee":"C07","7315bf4":"C07","590ba4e":"C04","1c69677":"C11","a51eb5f":"C16"}
+ "97414d8":"C15","2a9acf8":"C15","e81255c":"C04","c0518c0":"C04","49e66f3":"C19","56e573d":"C15","a764275":"C16","0272831":"C16","294cf90":"C07","261077d":"C13","4f1d12c":"C16","9cda97f":"C19","01bce4f":"C19","0948b37":"C06","d50f038":"C14","4ed0329":"C14","d9ec33f":"C14","4e50aee":"C07","7315bf4":"C07","590ba4e":"C04","1c69677":"C11","a51eb5f":"C16"}
 also = {"e3f06f1":["C13"],"4332f71":["C13"],"8e63be9":["C13"],"60ad86c":["C06"],"7393236":["C06"],"14cbeaa":["C06"],"83ae23e":["C06"],
         "be68ec1":["C06"],"73282b0":["C13"],"5465796":["C13"],"c0518c0":["C19"],"01bce4f":["C10"],"4ed0329":["C06"]}
 log = subprocess.run(["git","-C","/repo","log","--format=%h\t%s","5e6a5a9..HEAD"],capture_output=True,text=True).stdout.strip().splitlines()
